@@ -76,6 +76,10 @@ func (monitor) op(r *FnRun, st *State, x *ssa.Call, k lockOpKind, args []Val) Va
 	var decl *LockDecl
 	if ok {
 		owner := r.operand(st, ownerV)
+		if ot, isT := owner.(Term); isT {
+			st.ghost["lockowner:"+typ+"."+field] = ot
+			st.ghost["lockownertype:"+typ+"."+field] = ownerV.Type()
+		}
 		key = typ + "." + field + "@" + describeVal(owner)
 		for _, l := range r.C.Locks {
 			if l.Type == typ && l.Field == field {
@@ -111,6 +115,13 @@ func (monitor) op(r *FnRun, st *State, x *ssa.Call, k lockOpKind, args []Val) Va
 
 func (r *FnRun) lockEnv(st *State) *Env {
 	env := r.env(st, r.Entry)
+	// `self` denotes the object owning the lock (when it is not a parameter)
+	for _, l := range r.C.Locks {
+		if o, ok := st.ghost["lockowner:"+l.Type+"."+l.Field].(Term); ok {
+			env.vars["self"] = o
+			env.vtypes["self"] = st.ghost["lockownertype:"+l.Type+"."+l.Field].(types.Type)
+		}
+	}
 	return env
 }
 
@@ -171,6 +182,9 @@ func (r *FnRun) protectedBy(typ *types.Struct, key string, idx int) *LockDecl {
 				if j := strings.LastIndex(item, "."); j >= 0 && item[j+1:] == fname && !strings.HasPrefix(item, "bytes(") {
 					// the item's base must be a pointer to this struct type
 					base := strings.TrimSpace(item[:j])
+					if base == "self" && tname == "runtime_"+l.Type || base == "self" && strings.HasSuffix(tname, "_"+l.Type) {
+						return l
+					}
 					if t, ok := r.ptypes[base]; ok {
 						if pt, ok := t.Underlying().(*types.Pointer); ok && strings.TrimPrefix(structKey(pt.Elem()), "F!") == tname {
 							return l
